@@ -14,7 +14,7 @@ import (
 // program. BFS, deviation-bounded: the default environment answer is "no
 // request"; one deviation = a request raised before dynamic Step j. All
 // programs of <=2 (quick) / <=3 (thorough) fragments over a 20-fragment
-// alphabet x initial IFF x every j x 7 request kinds (thorough: pairs j1<j2).
+// alphabet x initial IFF x every j x 8 request kinds (thorough: pairs j1<j2).
 // Oracle (model-free): the interrupted run and the undisturbed run of the
 // same program end in the same state and memory (outside the dead stack area
 // and the handler's counter); the request is accepted at the first boundary
@@ -83,6 +83,8 @@ func c07Kinds() []c07Kind {
 		{"IM0 RST 38", 0, 0x20, func() *z80.Interrupt { return z80.IM0Interrupt(0xFF) }, false, 1},
 		{"IM0 RST 10", 0, 0x20, func() *z80.Interrupt { return z80.IM0Interrupt(0xD7) }, false, 1},
 		{"IM0 CALL 0300", 0, 0x20, func() *z80.Interrupt { return z80.IM0Interrupt(0xCD, 0x00, 0x03) }, false, 3},
+		// mode 1 ignores whatever the device drives on the bus: the dispatch is 0038h all the same
+		{"IM1 with a bus byte", 1, 0x20, func() *z80.Interrupt { return &z80.Interrupt{Type: z80.IMType, Data: []uint8{0x81}} }, false, 0},
 	}
 }
 
@@ -99,6 +101,7 @@ type c07Case struct {
 	J     int      `json:"inject_before_step"`
 	Kind2 int      `json:"kind2"`
 	J2    int      `json:"inject2_before_step"` // -1 = none
+	R0    int      `json:"r0,omitempty"`        // initial refresh register + 1 (0: the base vector's)
 	Salt  uint32   `json:"salt"`
 }
 
@@ -164,6 +167,9 @@ func (r *c07Runner) load(cs *c07Case) {
 	s.PC, s.SP, s.I, s.IM = c07Code, c07SP, k.i, k.im
 	s.IFF1, s.IFF2 = cs.IFF, cs.IFF
 	s.IY = 0x6050
+	if cs.R0 > 0 {
+		s.R = uint8(cs.R0 - 1)
+	}
 	toCPU(&s, &r.cpu)
 	r.cpu.Interrupt = nil
 	r.cpu.HALT = false
@@ -289,7 +295,7 @@ func (r *c07Runner) disturbed(cs *c07Case) ([]string, string) {
 	// ---- compare with the undisturbed run ----
 	got := fromCPU(&r.cpu)
 	exp := t.final
-	exp.R = got.R
+	exp.R = exp.R&0x80 | got.R&0x7F // the handler's fetches advance the 7-bit counter; bit 7 is the program's
 	if got != exp {
 		d = append(d, fmt.Sprintf("final state differs: undisturbed %v ; interrupted %v", stateMap(&exp), stateMap(&got)))
 	}
@@ -347,9 +353,17 @@ func checkC07(c *Ctx) {
 		}
 	}
 	gen(nil)
-	c.Rule = fmt.Sprintf("all %d programs of 1..%d fragments over a %d-fragment alphabet (ALU, loads, stores, IX/IY, stack, CALL/RET, DJNZ loop, LDIR/LDDR/CPIR/OTIR/INIR, DI/EI sections, exchanges, jumps, NEG, LD A,I) + HALT x initial IFF {enabled, disabled} x every dynamic Step boundary j = 0..N+2 (two boundaries parked on HALT) x 7 request kinds (NMI, IM1, IM2 vec 40, IM2 vec FE with I=FF, IM0 RST 38, IM0 RST 10, IM0 CALL nn); thorough adds pairs j1<j2 of (kind, NMI|IM1) incl. requests raised inside the first handler. Oracle: interrupted vs undisturbed run (no model). Non-trivial = a request was raised at a boundary that exists in the run (all cases; counted), accepted ones counted separately.", len(progs), maxLen, len(frags))
+	c.Rule = fmt.Sprintf("all %d programs of 1..%d fragments over a %d-fragment alphabet (ALU, loads, stores, IX/IY, stack, CALL/RET, DJNZ loop, LDIR/LDDR/CPIR/OTIR/INIR, DI/EI sections, exchanges, jumps, NEG, LD A,I) + HALT x initial IFF {enabled, disabled} x every dynamic Step boundary j = 0..N+2 (two boundaries parked on HALT) x 8 request kinds (NMI, IM1, IM2 vec 40, IM2 vec FE with I=FF, IM0 RST 38, IM0 RST 10, IM0 CALL nn, IM1 with a data byte on the bus) x initial refresh register (quick 8 values, thorough all 256; bit 7 of R must come out as in the undisturbed run); thorough adds pairs j1<j2 of (kind, NMI|IM1) incl. requests raised inside the first handler. Oracle: interrupted vs undisturbed run (no model). Non-trivial = a request was raised at a boundary that exists in the run (all cases; counted), accepted ones counted separately.", len(progs), maxLen, len(frags))
 	c.Bound = fmt.Sprintf("programs <=%d fragments; 1 injection (thorough: 2)", maxLen)
 	bg := obsBackground(c)
+	// initial refresh-register values (+1; 0 = the base vector's): the counter wraps at different boundaries
+	r0s := []int{0, 0x61, 0x69, 0x71, 0x75, 0x79, 0x7D, 0xFF}
+	if !c.Quick() {
+		r0s = []int{0}
+		for v := 0; v < 256; v += 2 {
+			r0s = append(r0s, v+1, (v^0x81)+1)
+		}
+	}
 	runners := make([]*c07Runner, 16)
 	var evals, steps, states [16 * 8]int64
 	var capped int32
@@ -362,8 +376,9 @@ func checkC07(c *Ctx) {
 		defer func() { evals[wi*8] += ev; states[wi*8] += st }()
 		for pi := lo; pi < hi; pi++ {
 			for _, iff := range []bool{true, false} {
-				for ki := range kinds {
-					cs := c07Case{Frags: progs[pi], IFF: iff, Kind: ki, J2: -1, Salt: c.Salt}
+				for kr := 0; kr < len(kinds)*len(r0s); kr++ {
+					ki := kr % len(kinds)
+					cs := c07Case{Frags: progs[pi], IFF: iff, Kind: ki, J2: -1, R0: r0s[kr/len(kinds)], Salt: c.Salt}
 					if err := r.undisturbed(&cs); err != nil {
 						c.Report("c07/transparent:setup", pi, "", cs, []string{err.Error()})
 						continue
@@ -389,7 +404,7 @@ func checkC07(c *Ctx) {
 							}
 						}
 					}
-					if !c.Quick() && len(progs[pi]) <= 2 {
+					if !c.Quick() && len(progs[pi]) <= 2 && cs.R0 == 0 {
 						// two injections: second kind NMI or IM1-like (same mode), any later dynamic step
 						for j := 0; j <= r.base.steps; j++ {
 							for j2 := j + 1; j2 <= r.base.steps+12; j2++ {
